@@ -326,6 +326,8 @@ def loads_for(scn):
         up = (scn["max_eft"] - ugt) / max(mx - ugt, 1e-12)
         dn = (ugt - scn["min_eft"]) / max(ugt - mn, 1e-12)
         lam = min(up, dn) * cal["u"]
+        if not (math.isfinite(lam) and lam > 0):
+            lam = 1.0  # e.g. the hybrid sequence of this profile has a non-positive time step (KF-C06-1): leave the loads as drawn
         base = [x * lam for x in base]
     if len(_LOADS) > 8:
         _LOADS.clear()
